@@ -110,7 +110,7 @@ def cases(tier, rng):
 def nontrivial(case, out):
     return out.count('SFired') >= 2
 
-STAGES = [dict(name='priority', mode='app', coq='Check.C06c', cases=cases, nontrivial=nontrivial, shard=20,
+STAGES = [dict(name='priority', mode='app', coq='Check.C06c', profile=('Proofs.JudgeC06P', 'JudgeC06P.profile_C06b', 'C06_app_judgement_sound / C06_app_judgement_transfer'), cases=cases, nontrivial=nontrivial, shard=20,
                exhaustive={'thorough': True, 'quick': True},
                rule='3 (quick) / 4 (thorough) context types out of priorities {30,20,-10,0,10,-20,15,5} in two selections: every insertion order, each followed by every single removal and re-insertion and by a rebuild, '
                     'over 1-2 entities; random histories of 4-40 inserts/removes/rebuilds/moves over 3-5 types and 3 entities. Every pair of types contests one key - or, in half of the cases, two keys bound by one Cumulative / MaxAbs action - through a consuming action in both (in a third of the cases with a long Hold condition, so that the winner is Ongoing rather than Fired); after each op '
